@@ -25,8 +25,8 @@ ASSUMPTIONS = ['the admitted set is taken as observed through geos_within_constr
                'designs whose feasibility or discrete score entries are within 1e-9 of flipping are neither demanded nor forbidden',
                'scoring of brute-force designs uses a pristine second copy of the diagnostics code (formula anchored by C05/C06)']
 EXHAUSTIVE = {'quick': False, 'thorough': False}
-MINIMA = {'quick': {'compared': 200, 'brute_designs': 3000, 'distinct_nontrivial': 80, 'cases_with_pruning': 8},
-          'thorough': {'compared': 2500, 'brute_designs': 200000, 'distinct_nontrivial': 1000, 'cases_with_pruning': 100}}
+MINIMA = {'quick': {'shared_data_searches': 40, 'compared': 200, 'brute_designs': 3000, 'distinct_nontrivial': 80, 'cases_with_pruning': 8},
+          'thorough': {'shared_data_searches': 400, 'compared': 2500, 'brute_designs': 200000, 'distinct_nontrivial': 1000, 'cases_with_pruning': 100}}
 N = {'quick': 400, 'thorough': 3200}
 CASE_TIMEOUT = {'quick': 300, 'thorough': 1200}
 
@@ -57,7 +57,9 @@ def run_case(spec):
   truth = sl.Truth(case)
   counters = collections.Counter()
   violations = []
-  rec = sl.run_search(case, 'exhaustive')
+  shared = spec['idx'] % 4 == 1
+  rec = sl.run_search(case, 'exhaustive', interleave=(r if shared else None))
+  counters['shared_data_searches'] += bool(rec.get('interleaved'))
   desc = sl.describe(case, with_frame=False)
   if not rec['outcome'].ok or rec['designs'] is None or rec['admitted'] is None:
     return {'nontrivial': False, 'fp': util.fp(desc), 'classes': ['raised'], 'counters': {'search_raised': 1},
